@@ -58,6 +58,18 @@ class Prop(WalletProp):
         # the sub-path handed to derive_path as a tuple / one-shot iterable instead of a list
         for form in ("iter", "gen", "tuple", "map"):
             cases.append({"kind": "Watch", "w": w, "export": [84 + H, H, H], "v": PUBV[False][0], "sub": [0, 3], "path_form": form})
+        # call history on the watch-only side: earlier look-ups on the same wallet / several children of one retained public node object
+        # asked out of order, with gaps and repeats, before the observed one (the full wallet is asked only once)
+        w = self.rand_wspec(rng, False)
+        a0 = rng.randrange(0, 50)
+        for warm, sub in (([[0, a0], [0, a0 + 4], [0, a0 + 2]], [0, a0 + 1]), ([[1, 3], [1, 3], [1, 5]], [1, 4]), ([[0], [0, 1], [0, 1, 2]], [0, 1, 2]),
+                          ([[2, 7], [2, 9], [2, 8]], [2, 8, 0])):
+            cases.append({"kind": "Watch", "w": w, "export": [84 + H, H, H], "v": PUBV[False][0], "sub": sub, "warm": warm})
+        for idx, last in (([a0, a0 + 4, a0 + 2], a0 + 1), ([5, 9, 7], 6), ([3, 3, 5], 4), (list(range(0, 6)) + [11, 7], 6), ([2, 1, 0], 1), ([0, 2], 1),
+                          ([H - 1, H - 3, H - 2], H - 2)):
+            cases.append({"kind": "Watch", "w": w, "export": [44 + H, H, H], "v": PUBV[False][0], "sub": [0, last], "retain": 1, "warm_idx": idx})
+        cases.append({"kind": "Watch", "w": self.rand_wspec(rng, True), "export": [49 + H, 1 + H, H], "v": PUBV[True][1 % len(PUBV[True])], "sub": [6, 1], "retain": 0,
+                      "warm_idx": [5, 9, 7]})
         w = self.rand_wspec(rng, False)
         for sub in ([H], [0, H + 1], [2 ** 32 - 1]):
             cases.append({"kind": "Watch", "w": w, "export": [44 + H, H, H], "v": PUBV[False][0], "sub": sub})
